@@ -100,6 +100,20 @@ def Finder.call (key : α → κ) (f : Finder α κ) (x : α) : Nat × Finder α
      { dict := fun k => if k = key x then some f.list.length else f.dict k,
        list := f.list ++ [x] })
 
+/-- Indices handed out to a sequence of items by one closure (`[finder(x) for x in xs]`). -/
+def Finder.callAll (key : α → κ) : Finder α κ → List α → List Nat × Finder α κ
+  | f, [] => ([], f)
+  | f, x :: xs =>
+    ((f.call key x).1 :: (Finder.callAll key (f.call key x).2 xs).1, (Finder.callAll key (f.call key x).2 xs).2)
+
+/-- The texdata table of `_lmp_write_texinfo`: `texdata_ind` / `next_ind` are a `find_or_insert`
+over an initially empty table; `key` is what the dict is keyed on — the TexData *object* as coded
+(`dict[TexData, int]`, attrs `eq=False` ⇒ identity).  Returns the texdata index written into each
+texinfo record and the texdata records in the order they are written. -/
+def texdataTable (key : α → κ) (texdataOfInfo : List α) : List Nat × List α :=
+  ((Finder.callAll key (Finder.mk' key []) texdataOfInfo).1,
+   (Finder.callAll key (Finder.mk' key []) texdataOfInfo).2.list)
+
 /-- All indices (from `i`) of elements satisfying `p`, ascending. -/
 def idxsFrom (p : α → Bool) : Nat → List α → List Nat
   | _, [] => []
